@@ -1,4 +1,5 @@
-(* C08, forward simulation for HEAP statements: what the program-level induction carries along
+(* CHAIN VERSION of Proof/RVHSimProgA.v (mechanical port: the relation is Proof/RVKSimRel.hrel).
+   C08, forward simulation for HEAP statements: what the program-level induction carries along
    (`hinv`: the invariant of the instrumented machine of C09 - InvA with the pointers of the environment as
    roots, chains owned, values represented, the environment typed -, the slot-count invariant P03, and the
    room in the heap region for everything the run will still allocate), progress facts of the machine under
